@@ -330,3 +330,6 @@ def run(ctx):
 
     ctx.rule("C02.h", "HistogramND.__init__ stores the given missed weight unmodified", 1)
     c13.check_missed_alloc(ctx, "C02.h", m)
+
+    # shared with C17.b: values and weights are flattened in the same, layout independent order
+    wiring.flatten_order(ctx, "C02.e", m, "flattening:C-order")
